@@ -162,6 +162,39 @@ def field_writers(ctx, F, adts, fields=None, R="R-WHO"):
     ctx.floor(R, "struct fields with a writer table", n, 1)
 
 
+def group_reader(ctx, F):
+    import readerrules
+    readerrules.run(ctx, F, ("R1", "R2"))
+    readerrules.last_marker(ctx, F)
+    readerrules.xref_max_id(ctx, F)
+    readerrules.prev_not_carried(ctx, F)
+    readerrules.no_early_object_reads(ctx, F)
+
+
+def group_strings(ctx, F):
+    import prop_c01
+    prop_c01.membership_rule(ctx, F)
+
+
+def group_filters(ctx, F):
+    import prop_c09
+    prop_c09.filter_rules(ctx, F)
+
+
+def group_ids(ctx, F):
+    import prop_c11
+    prop_c11.id_rules(ctx, F)
+
+
+GROUPS = {"reader": group_reader, "strings": group_strings, "filters": group_filters, "ids": group_ids}
+
+# rule groups shared between properties: a clause of several properties rests on the same piece of code
+GROUP_OF = {
+    "C01": ("reader", "strings", "ids"), "C02": ("reader", "filters"), "C03": ("reader", "strings", "ids"), "C05": ("reader", "strings", "ids"),
+    "C06": ("reader", "strings"), "C07": ("reader", "filters", "ids"), "C09": ("filters",), "C10": ("ids",), "C11": ("ids", "filters"),
+    "C14": ("strings",), "C17": ("strings", "ids"),
+}
+
 # which building blocks each property's clauses rest on (included by ./check after the property's own rules)
 CORE = {
     "C01": (("conversions", "dictionary"), ["Document", "Stream"]),
@@ -187,9 +220,9 @@ CORE_TEXT = ("; building blocks the clauses rest on: Object accessors succeed fo
 
 
 def run_for(ctx, prop):
-    if prop not in CORE or getattr(ctx, "_core_done", None) == ctx.cur_cfg:
+    if (prop not in CORE and prop not in GROUP_OF) or getattr(ctx, "_core_done", None) == ctx.cur_cfg:
         return
-    parts, adts = CORE[prop]
+    parts, adts = CORE.get(prop, ((), []))
     F = ctx.facts("default")
     ctx._core_done = ctx.cur_cfg
     if "accessors" in parts:
@@ -200,3 +233,20 @@ def run_for(ctx, prop):
         dictionary(ctx, F)
     if adts:
         field_writers(ctx, F, adts)
+    # shared rule groups: an obligation already recorded by the property's own rules is not repeated
+    have = {(o["rule"], o["key"]) for o in ctx.obligations}
+    for g in GROUP_OF.get(prop, ()):
+        n0 = len(ctx.obligations)
+        f0 = len(ctx.findings)
+        GROUPS[g](ctx, F)
+        # drop duplicates of obligations the property already had
+        keep_o = ctx.obligations[:n0]
+        dup_keys = set()
+        for o in ctx.obligations[n0:]:
+            if (o["rule"], o["key"]) in have:
+                dup_keys.add("%s|%s" % (o["rule"], o["key"]))
+            else:
+                keep_o.append(o)
+                have.add((o["rule"], o["key"]))
+        ctx.obligations[:] = keep_o
+        ctx.findings[:] = ctx.findings[:f0] + [f for f in ctx.findings[f0:] if f.key not in dup_keys]
